@@ -145,6 +145,9 @@ def run(res):
               for i in range(16 if quick else 160)]
     for r in fw.run_parallel(C19.scene_case, kspecs):
         res.absorb(r)
+    # ... and a Kang object run a second time (another source first) must equal a fresh object, in every band
+    for r in fw.run_parallel(C19.rerun_case, [dict(seed=res.seed + 9, idx=i) for i in range(4 if quick else 40)]):
+        res.absorb(r)
     res.rule = ("shoebox scenes, 1-3 bands with m in [0.005,0.3] Np/m, order 1-2; the attenuated run is compared "
                 "with the model and, leg by leg, with the m = 0 run and with a run where attenuation was never set; "
                 "every case is non-trivial (m > 0), distinct by input hash")
